@@ -2,7 +2,7 @@
 From Coq Require Import List NArith Bool Lia Arith.
 Import ListNotations.
 From SAV.orm Require Import Backref BackrefSpec BackrefBase BackrefO2M BackrefM2M BackrefBulk
-  BackrefSetItem BackrefTotal.
+  BackrefSetItem BackrefClear BackrefTotal.
 Open Scope N_scope.
 
 Definition ok_or_err (r : res) (s' : st) : Prop := r = Ok s' \/ exists e, r = Err e s'.
@@ -24,7 +24,7 @@ Qed.
 Theorem o2m_step_guarded : forall s p, inv_o2m s -> guard_o2m s p = true ->
   exists s', ok_or_err (step_prim O2M p s) s' /\ inv_o2m s'.
 Proof.
-  intros s p I G. destruct p as [sd o v|sd o v|sd o i v|sd o i|sd o i|sd o i v|sd o vs|sd o v|sd o];
+  intros s p I G. destruct p as [sd o v|sd o v|sd o i v|sd o i|sd o i|sd o i v|sd o vs|sd o v|sd o|sd o];
     cbn [guard_o2m guard_coll_prim] in G.
   - destruct sd; cbn in G; [|discriminate]. repeat (apply andb_true_iff in G; destruct G as [G ?]).
     destruct (o2m_append s o v I) as [s' [E I']]; [apply neqb; assumption|apply neqb; assumption|apply nmemb; assumption|].
@@ -54,6 +54,8 @@ Proof.
   - destruct sd; [discriminate|]. apply neqb in G.
     destruct (o2m_del_parent s o I G) as [s' [[E|E] I']]; exists s'; (split; [|exact I']);
       [left; exact E|right; eexists; exact E].
+  - destruct sd; cbn in G; [|discriminate]. apply neqb in G.
+    destruct (o2m_delcoll s o I G) as [s' [E I']]. exists s'. split; [left; exact E|exact I'].
 Qed.
 
 (* ---------- many-to-many ---------- *)
@@ -62,7 +64,7 @@ Lemma side_eqb_refl : forall sd, side_eqb sd sd = true. Proof. destruct sd; refl
 Theorem m2m_step_guarded : forall s p, inv_m2m s -> guard_m2m s p = true ->
   exists s', ok_or_err (step_prim M2M p s) s' /\ inv_m2m s'.
 Proof.
-  intros s p I G. destruct p as [sd o v|sd o v|sd o i v|sd o i|sd o i|sd o i v|sd o vs|sd o v|sd o];
+  intros s p I G. destruct p as [sd o v|sd o v|sd o i v|sd o i|sd o i|sd o i v|sd o vs|sd o v|sd o|sd o];
     cbn [guard_m2m guard_coll_prim] in G; try discriminate;
     rewrite side_eqb_refl in G; cbn [andb] in G.
   - repeat (apply andb_true_iff in G; destruct G as [G ?]).
@@ -86,6 +88,7 @@ Proof.
     destruct (m2m_replace s sd o vs I) as [s' [E I']];
       [apply neqb; assumption|apply nodupb_NoDup; assumption|apply nmemb; assumption|].
     exists s'. split; [left; exact E|exact I'].
+  - destruct (m2m_delcoll s sd o I) as [s' [E I']]. exists s'. split; [left; exact E|exact I'].
 Qed.
 
 (* ---------- sequences ---------- *)
@@ -264,4 +267,48 @@ Theorem reload_o2o_two_children_refuted :
 Proof.
   cbn. repeat split. intros A. specialize (A 1 2). cbn in A.
   assert (H : CVal 1 = CVal 2) by (apply A; [discriminate|discriminate|reflexivity]). discriminate.
+Qed.
+
+(* ---------- commit: the whole invariant holds for the state loaded from the rows ---------- *)
+Lemma NoDup_map_snd_filter : forall (rows : list (N * N)) p, NoDup rows ->
+  NoDup (map snd (filter (fun q => N.eqb (fst q) p) rows)).
+Proof.
+  intros rows p ND. induction rows as [|[x y] t IH]; cbn; [constructor|].
+  inversion ND as [|? ? NI ND']; subst. destruct (x =? p) eqn:E; cbn; [|apply IH; exact ND'].
+  apply N.eqb_eq in E. subst. constructor; [|apply IH; exact ND'].
+  intros H. apply in_map_iff in H. destruct H as [[a b] [Q H]]. apply filter_In in H. destruct H as [H F].
+  cbn in *. apply N.eqb_eq in F. subst. contradiction.
+Qed.
+Lemma NoDup_map_fst_filter : forall (rows : list (N * N)) c, NoDup rows ->
+  NoDup (map fst (filter (fun q => N.eqb (snd q) c) rows)).
+Proof.
+  intros rows c ND. induction rows as [|[x y] t IH]; cbn; [constructor|].
+  inversion ND as [|? ? NI ND']; subst. destruct (y =? c) eqn:E; cbn; [|apply IH; exact ND'].
+  apply N.eqb_eq in E. subst. constructor; [|apply IH; exact ND'].
+  intros H. apply in_map_iff in H. destruct H as [[a b] [Q H]]. apply filter_In in H. destruct H as [H F].
+  cbn in *. apply N.eqb_eq in F. subst. contradiction.
+Qed.
+
+Theorem reload_inv_o2m : forall rows, NoDup rows -> functional_rows rows -> nonzero_rows rows ->
+  inv_o2m (reload O2M rows).
+Proof.
+  intros rows ND F NZ. constructor.
+  - apply reload_agree_o2m; assumption.
+  - intros p. unfold reload, coll_of. cbn. apply NoDup_map_snd_filter. exact ND.
+  - intros p H. unfold reload, coll_of in H. cbn [cells sa reload_cell kind_of] in H.
+    apply rows_A_In in H. destruct (NZ p 0 H) as [_ K]. congruence.
+  - intros c. unfold reload. cbn [cells sb reload_cell kind_of].
+    destruct (rows_of_side O2M SB rows c); discriminate.
+Qed.
+
+Theorem reload_inv_m2m : forall rows, NoDup rows -> nonzero_rows rows -> inv_m2m (reload M2M rows).
+Proof.
+  intros rows ND NZ. constructor.
+  - apply reload_agree_m2m.
+  - intros o. unfold reload, coll_of. cbn. apply NoDup_map_snd_filter. exact ND.
+  - intros o. unfold reload, coll_of. cbn. apply NoDup_map_fst_filter. exact ND.
+  - intros o H. unfold reload, coll_of in H. cbn [cells sa reload_cell kind_of] in H.
+    apply rows_A_In' in H. destruct (NZ o 0 H) as [_ K]. congruence.
+  - intros o H. unfold reload, coll_of in H. cbn [cells sb reload_cell kind_of] in H.
+    unfold rows_of_side in H. apply rows_B_In in H. destruct (NZ 0 o H) as [K _]. congruence.
 Qed.
